@@ -181,3 +181,14 @@ def sector_projector(basis, qntot):
         sig = np.asarray(b.sigmaqn)
         tot = (tot[:, None, :] + sig[None, :, :]).reshape(-1, len(qntot))
     return np.all(tot == qntot, axis=1)
+
+
+def best_sector(basis):
+    """most populated symmetry sector of the product basis, as a qntot argument."""
+    qn_size = basis[0].sigmaqn.shape[1]
+    tot = np.zeros((1, qn_size), dtype=int)
+    for b in basis:
+        tot = (tot[:, None, :] + np.asarray(b.sigmaqn)[None, :, :]).reshape(-1, qn_size)
+    vals, counts = np.unique(tot, axis=0, return_counts=True)
+    best = vals[int(np.argmax(counts))]
+    return int(best[0]) if qn_size == 1 else np.array(best)
